@@ -52,8 +52,23 @@ void ares_tvnow(ares_timeval_t *now)
 
 #elif defined(HAVE_CLOCK_GETTIME_MONOTONIC)
 
+#ifdef CARES_VERIF_HOOKS
+struct ares_verif_hooks_s ares_verif_hooks;
+int                       ares_verif_rand_purpose = 0;
+#endif
+
 void ares_tvnow(ares_timeval_t *now)
 {
+#ifdef CARES_VERIF_HOOKS
+  if (ares_verif_hooks.tvnow != NULL) {
+    long long    sec  = 0;
+    unsigned int usec = 0;
+    ares_verif_hooks.tvnow(&sec, &usec);
+    now->sec  = (ares_int64_t)sec;
+    now->usec = usec;
+    return;
+  }
+#endif
   /* clock_gettime() is guaranteed to be increased monotonically when the
    * monotonic clock is queried. Time starting point is unspecified, it
    * could be the system start-up time, the Epoch, or something else,
